@@ -146,6 +146,17 @@ def usage_crate(dirpath, feats, std, derives):
                 text = mod.replace("#[derive(derive_more::%s)]" % d["name"], "#[derive(%s%s)]" % (path, d["name"]))
                 parts.append("pub mod u_%s_%d_%d {\n%s\n}\n" % (d["name"].lower(), k, pi, text))
                 n += 1
+    # the helper error types of the enabled features: Debug + Display always, std::error::Error with the `std` feature (as under `full`)
+    generic = ("TryFromReprError", "TryIntoError", "TryUnwrapError")
+    hl = ["pub mod helper_traits {", "    fn fmt_ok<T: ::core::fmt::Debug + ::core::fmt::Display>() {}", "    fn err_ok<T: ::std::error::Error>() {}", "    pub fn all() {"]
+    for h, fs in sorted(HELPERS.items()):
+        if any(x in feats for x in fs):
+            ty = "derive_more::%s%s" % (h, "<u8>" if h in generic else "")
+            hl.append("        fmt_ok::<%s>();" % ty)
+            if std:
+                hl.append("        err_ok::<%s>();" % ty)
+    hl += ["    }", "}"]
+    parts.append("\n".join(hl) + "\n")
     with open(os.path.join(dirpath, "src", "lib.rs"), "w") as f:
         f.write("".join(parts))
     return n
@@ -328,7 +339,7 @@ def run(chk, tier):
     chk.part("lattice", configurations=len(configs), singles=len(feats), pairs=(len(feats) * (len(feats) - 1) // 2 if thorough else 0), with_and_without_std=True,
              probe_items=len(derives) * 3 + len(HELPERS), repository_tests_run_for="singles and full (thorough)" if thorough else "none (quick)",
              steps=["cargo check -p derive_more-impl", "cargo check -p derive_more", "probe crate: unresolved imports == items of disabled features",
-                    "usage crate: every derive of the enabled features applied to C01's supported inputs type-checks",
+                    "usage crate: every derive of the enabled features applied to C01's supported inputs type-checks; helper error types implement Debug + Display (+ std::error::Error with std)",
                     "trait probe: derive_more::with_trait::<Name> is usable as a trait iff it is under `full`", "cargo test --test <feature>"])
     chk.assumptions += ["which feature provides which helper type is transcribed from the README/doc (HELPERS table); derive -> feature comes from create_derive! in impl/src/lib.rs",
                         "`testing-helpers` is not a user-facing derive feature and is left out"]
